@@ -170,11 +170,25 @@ flss(UINT16 val)
  */
 
 LOCAL(int)
-compute_reciprocal(UINT16 divisor, DCTELEM *dtbl)
+compute_reciprocal(unsigned int divisor, DCTELEM *dtbl)
 {
   UDCTELEM2 fq, fr;
   UDCTELEM c;
   int b, r;
+
+  if (divisor > 65535) {
+    /* With 16-bit quantization table entries, the (scaled) divisor can exceed
+     * 16 bits.  The magnitude of an 8-bit-precision DCT coefficient is always
+     * less than half of such a divisor, so these values cause every
+     * coefficient to be quantized to zero.  Only the C quantization algorithm
+     * is used in these cases.
+     */
+    dtbl[DCTSIZE2 * 0] = (DCTELEM)0;                        /* reciprocal */
+    dtbl[DCTSIZE2 * 1] = (DCTELEM)0;                        /* correction */
+    dtbl[DCTSIZE2 * 2] = (DCTELEM)1;                        /* scale */
+    dtbl[DCTSIZE2 * 3] = (DCTELEM)0;                        /* shift */
+    return 0;
+  }
 
   if (divisor == 1) {
     /* divisor == 1 means unquantized, so these reciprocal/correction/shift
@@ -189,7 +203,7 @@ compute_reciprocal(UINT16 divisor, DCTELEM *dtbl)
     return 0;
   }
 
-  b = flss(divisor) - 1;
+  b = flss((UINT16)divisor) - 1;
   r  = sizeof(DCTELEM) * 8 + b;
 
   fq = ((UDCTELEM2)1 << r) / divisor;
